@@ -126,6 +126,91 @@ func groupStructZeroWitness(s *sink) {
 	}
 }
 
+type GwEmbInner struct {
+	X int64 `json:"x"`
+}
+
+type gwEmbOuter struct {
+	*GwEmbInner
+	N int64 `json:"n"`
+}
+
+type gwDisabled struct {
+	Old string `json:"old"`
+	N   int64  `json:"n"`
+}
+
+// groupStructRepairWitnesses: regression witnesses of two repaired defects of struct mapping
+// (c874f9b: fields promoted through an embedded struct pointer; e915fbc: the zero value of a
+// disabled property on a non-pointer field was serialized and then refused by Unserialize).
+func groupStructRepairWitnesses(s *sink) {
+	opt := func(t schema.Type) *schema.PropertySchema {
+		return schema.NewPropertySchema(t, nil, false, nil, nil, nil, nil, nil)
+	}
+	r := hx.Guard(func() hx.Result {
+		o := schema.NewStructMappedObjectSchema[gwEmbOuter]("Outer", map[string]*schema.PropertySchema{
+			"x": opt(schema.NewIntSchema(nil, nil, nil)), "n": opt(schema.NewIntSchema(nil, nil, nil))})
+		v, err := o.Unserialize(map[string]any{"x": 1, "n": 2})
+		if err != nil {
+			return hx.Result{R: "err", Msg: "valid input rejected: " + err.Error()}
+		}
+		if out, ok := v.(gwEmbOuter); !ok || out.GwEmbInner == nil || out.X != 1 || out.N != 2 {
+			return hx.Result{R: "err", Msg: fmt.Sprintf("wrong value %#v", v)}
+		}
+		for _, nv := range []any{gwEmbOuter{N: 1}, v, gwEmbOuter{GwEmbInner: &GwEmbInner{X: 4}, N: 3}} {
+			if err := o.Validate(nv); err != nil {
+				return hx.Result{R: "err", Msg: "Validate: " + err.Error()}
+			}
+			w, err := o.Serialize(nv)
+			if err != nil {
+				return hx.Result{R: "err", Msg: "Serialize: " + err.Error()}
+			}
+			if _, err := o.Unserialize(w); err != nil {
+				return hx.Result{R: "err", Msg: "Unserialize(Serialize(v)): " + err.Error()}
+			}
+		}
+		return hx.Result{R: "ok"}
+	})
+	s.stats["gowitness:embedded"]++
+	if r.R == "panic" {
+		s.finding(Finding{Prop: "C04", What: "struct-mapped object over a struct with an embedded struct pointer panicked: " + r.Msg})
+	} else if r.R != "ok" {
+		s.finding(Finding{Prop: "C01", What: "struct-mapped object over a struct with an embedded struct pointer: " + r.Msg})
+	}
+	r = hx.Guard(func() hx.Result {
+		o := schema.NewStructMappedObjectSchema[gwDisabled]("D", map[string]*schema.PropertySchema{
+			"old": opt(schema.NewStringSchema(nil, nil, nil)).Disable("gone"), "n": opt(schema.NewIntSchema(nil, nil, nil))})
+		v, err := o.Unserialize(map[string]any{"n": 1})
+		if err != nil {
+			return hx.Result{R: "err", Msg: "valid input rejected: " + err.Error()}
+		}
+		if err := o.Validate(v); err != nil {
+			return hx.Result{R: "err", Msg: "result of Unserialize fails Validate: " + err.Error()}
+		}
+		w, err := o.Serialize(v)
+		if err != nil {
+			return hx.Result{R: "err", Msg: "result of Unserialize fails Serialize: " + err.Error()}
+		}
+		v2, err := o.Unserialize(w)
+		if err != nil {
+			return hx.Result{R: "err", Msg: fmt.Sprintf("Unserialize rejects the serialized form %v: %v", w, err)}
+		}
+		if v2 != v {
+			return hx.Result{R: "err", Msg: fmt.Sprintf("Unserialize(Serialize(v)) = %#v differs from v = %#v", v2, v)}
+		}
+		if _, err := o.Unserialize(map[string]any{"n": 1, "old": "x"}); err == nil {
+			return hx.Result{R: "err", Msg: "an input using the disabled property is accepted"}
+		}
+		return hx.Result{R: "ok"}
+	})
+	s.stats["gowitness:disabled-zero"]++
+	if r.R == "panic" {
+		s.finding(Finding{Prop: "C04", What: "struct-mapped object with a disabled property panicked: " + r.Msg})
+	} else if r.R != "ok" {
+		s.finding(Finding{Prop: "C01", What: "struct-mapped object with a disabled property on a non-pointer field: " + r.Msg})
+	}
+}
+
 func goWitnessChild() {
 	debug.SetMaxStack(64 << 20)
 	var variant int
@@ -150,6 +235,7 @@ func groupGoWitnesses(s *sink) {
 	}
 	s.stats["gowitness:done"]++
 	groupStructZeroWitness(s)
+	groupStructRepairWitnesses(s)
 	for variant := 0; variant < 3; variant++ {
 		for _, defaults := range []string{"plain", "defaults"} {
 			cmd := exec.Command(os.Args[0], "go-witness", fmt.Sprint(variant), defaults)
